@@ -285,6 +285,11 @@ func preemptScenariosFor(prop string) []scn {
 		v2(flowParams{Sources: 2, Records: 1, Batch: 1, Dests: 1, AckMenu: okNack, Stop: "", MaxOcc: 2, PointOnly: pts}, 1, 2)
 	}
 	switch prop {
+	case "C12":
+		// the force stop lands while a node goroutine of the run is parked between two of its own statements
+		v1(flowParams{Sources: 1, Records: 2, Batch: 1, Dests: 1, AckMenu: []string{"ok", "defer"}, Stop: "force"}, 1, 2)
+		v2(flowParams{Sources: 1, Records: 2, Batch: 1, Dests: 1, AckMenu: []string{"ok", "defer"}, Stop: "force"}, 1, 2)
+		v1(flowParams{Sources: 1, Records: 2, Batch: 1, Dests: 2, AckMenu: okNack, Stop: "force", MaxOcc: 1}, 0, 1)
 	case "C09":
 		// a destination that confirms several writes in ONE response, with the engine's own goroutines preempted between the
 		// write and the hand-over to the acker: a legal reply shape whose effect depends on the interleaving
@@ -322,6 +327,8 @@ func preemptScenariosFor(prop string) []scn {
 		v1(flowParams{Sources: 1, Records: 1, Batch: 1, Dests: 1, AckMenu: onlyOK, Ctl: []string{"stop", "start", "stopwait"}}, 1, 2)
 		v2(flowParams{Sources: 1, Records: 1, Batch: 1, Dests: 1, AckMenu: onlyOK, Ctl: []string{"stop", "start", "stopwait"}}, 1, 2)
 		v1(flowParams{Sources: 1, Records: 1, Batch: 1, Dests: 1, AckMenu: []string{"ok", "err"}, Ctl: []string{"stopwait", "start", "stopwait"}, Retries: 1}, 1, 2)
+		// the funnel engine stops the workers of a two-source pipeline concurrently and joins them
+		v2(flowParams{Sources: 2, Records: 1, Batch: 1, Dests: 1, AckMenu: onlyOK, Ctl: []string{"stopwait", "start", "stopwait"}, MaxOcc: 2}, 0, 1)
 	case "C10":
 		// the node goroutines of a failing run racing with the run's cleanup goroutine
 		v1(flowParams{Sources: 1, Records: 2, Batch: 1, Dests: 1, AckMenu: []string{"ok", "err"}, ReadMenu: []string{"ok", "err", "fatal"}, Retries: 1, SiteWide: true}, 1, 2)
